@@ -26,6 +26,7 @@ type Step struct {
 	Tamper      string
 	GiveUp      time.Duration // > 0: both applications abandon this connection's handshake after that much fake time
 	SlowSetJunk bool          // the server's store is slow in Set; an undecodable record reaches the server meanwhile
+	SetFails    string        // "C" / "S": that side\'s store reports an error for its first Set of this connection (after storing)
 }
 
 // Plan is one enumerated history.
@@ -54,6 +55,9 @@ func (p Plan) ID() string {
 		}
 		if s.SlowSetJunk {
 			x += "!junk-during-slow-set"
+		}
+		if s.SetFails != "" {
+			x += "!set-fails-" + s.SetFails
 		}
 		if s.GiveUp > 0 {
 			x = strings.Replace(x, "@"+s.Mask.String(), fmt.Sprintf("@blackout[%s..]", s.Mask[0]), 1) + fmt.Sprintf("~giveup%s", s.GiveUp)
@@ -101,6 +105,7 @@ func runPlan(t *testing.T, p *world.PKI, pl Plan, seed uint64) run.Outcome {
 			}
 			h.GiveUp = st.GiveUp
 			h.SlowSetJunk = st.SlowSetJunk
+			h.SetFails = st.SetFails
 			r, err := h.Connect(w, p, i+1, st.Mask, st.Tamper, tam, tr)
 			if err != nil {
 				fail(fmt.Sprintf("conn%d: %v", i+1, err))
@@ -273,6 +278,18 @@ func Plans(thorough bool) ([]Plan, map[string]any) {
 		}
 		out = append(out, Plan{"R", c, []Step{{Edits: []Edit{EdDelC}, SlowSetJunk: true}, {Edits: []Edit{EdNone}}}})
 		out = append(out, Plan{"R", c, []Step{{Edits: []Edit{EdDelC, EdDelS}, SlowSetJunk: true}, {Edits: []Edit{EdNone}}, {Edits: []Edit{EdNone}}}})
+	}
+	// W: a store whose Set reports an error although the entry is there (a full handshake after delC / delC+delS),
+	// then a clean connection: an endpoint that answers the failed write with a fatal alert must not offer or
+	// accept that session afterwards
+	for _, c := range cfgs {
+		if c.MTU != 0 {
+			continue
+		}
+		for _, who := range []string{"C", "S"} {
+			out = append(out, Plan{"W", c, []Step{{Edits: []Edit{EdDelC}, SetFails: who}, {Edits: []Edit{EdNone}}}})
+			out = append(out, Plan{"W", c, []Step{{Edits: []Edit{EdDelC, EdDelS}, SetFails: who}, {Edits: []Edit{EdNone}}, {Edits: []Edit{EdNone}}}})
+		}
 	}
 	// J: an undecodable unauthenticated record during a FULL handshake (the client's session is deleted
 	// first), then a clean connection: what a fatal alert leaves in the stores
